@@ -68,4 +68,22 @@ def declaredReads (cancelling : Bool) (a : List AOp) : Option (List R) :=
 
 def declaredWrites (a : List AOp) : List R := outputRegisters (zeroExtend (outputsOf a))
 
+/-! ### Position-wise view of the operand loop
+
+`form.build` walks the entries of the row; which operand an entry is paired with depends only on how many implicit /
+explicit entries precede it — never on WHICH registers the operands are.  `operandAt` says that directly (it is not
+used by `assign`; `Props/C04Alias.assign_positions` proves that `assign` pairs exactly so). -/
+
+/-- number of implicit entries before entry `i` of the row -/
+def implBefore (specs : List Spec) (i : Nat) : Nat := (specs.take i).countP (fun s => s.impl)
+
+/-- number of explicit entries before entry `i` of the row -/
+def explBefore (specs : List Spec) (i : Nat) : Nat := (specs.take i).countP (fun s => !s.impl)
+
+/-- the operand entry `i` of the row stands for: the next implicit register, or the next explicit operand -/
+def operandAt (specs : List Spec) (impls ops : List Opnd) (i : Nat) : Option Opnd :=
+  match specs[i]? with
+  | none => none
+  | some s => if s.impl then impls[implBefore specs i]? else ops[explBefore specs i]?
+
 end Avo.BuildRW
